@@ -1,8 +1,25 @@
 package main
 
-func (p *Program) disciplineObligations() []*Obligation { return nil }
-func (p *Program) toolObligations(opts checkOpts) []*Obligation { return nil }
-func (p *Program) extraCoverage(prop string) map[string]interface{} { return nil }
-func propertyExplanation(prop string) string { return "" }
-func propertyAssumptions(prop string) []string { return nil }
+func (p *Program) toolObligations(opts checkOpts) []*Obligation {
+	obls := p.toolGroundObligations()
+	if opts.prop == "C17" {
+		o, stats := p.toolBounded(opts)
+		p.bounded = stats
+		obls = append(obls, o)
+	}
+	return obls
+}
+func (p *Program) extraCoverage(prop string) map[string]interface{} {
+	out := map[string]interface{}{}
+	if prop == "C17" && p.bounded != nil {
+		out["bounded_parts"] = []interface{}{map[string]interface{}{
+			"what":   "html/template.Execute inside updateWordlist (no contract within reach): BOUNDED run of the real tool, never counted as proved",
+			"stats":  p.bounded,
+		}}
+	}
+	if len(p.verifExempt) > 0 && (prop == "C12" || prop == "C07" || prop == "C13") {
+		out["verif_tagged_uses_of_package_state"] = p.verifExempt
+	}
+	return out
+}
 
